@@ -263,10 +263,14 @@ class Run:
         }
         os.makedirs(os.path.join(VERIF, "evidence"), exist_ok=True)
         evp = os.path.join(VERIF, "evidence", f"{self.pid}.json")
+        if os.environ.get("VERIF_NO_EVIDENCE"):  # mutant trials must not overwrite committed evidence
+            evp = os.path.join("/tmp", f"verif-evidence-{self.pid}-{os.getpid()}.json")
         with open(evp, "w") as f:
             json.dump(ev, f, indent=1, sort_keys=True, default=str)
             f.write("\n")
         _validate_evidence(evp)
+        if os.environ.get("VERIF_NO_EVIDENCE"):
+            os.unlink(evp)
 
         rdir = os.path.join(VERIF, "replays", self.pid)
         if os.path.isdir(rdir):
